@@ -22,7 +22,7 @@ Inductive cpath : wid -> list net -> wid -> Prop :=
     In n (nets nl) -> 0 <= dl n -> In w (nargs n) ->
     cpath (ndest n) p w' -> cpath w (n :: p) w'.
 
-Definition wsum (p : list net) : Z := fold_right (fun n acc => dl n + acc) 0 p.
+Definition wsum (p : list net) : Z := fold_right Z.add 0 (map dl p).
 
 Definition is_longest (w : wid) (t : Z) : Prop :=
   (exists w0 p, is_base nl w0 = true /\ cpath w0 p w /\ wsum p = t)
